@@ -130,13 +130,13 @@ def _model(data, t):
 
 _BIND = {0: 'STB_LOCAL', 1: 'STB_GLOBAL', 2: 'STB_WEAK'}
 _TYPE = {0: 'STT_NOTYPE', 1: 'STT_OBJECT', 2: 'STT_FUNC', 3: 'STT_SECTION', 4: 'STT_FILE', 5: 'STT_COMMON', 6: 'STT_TLS'}
-_VIS = {0: 'STV_DEFAULT', 1: 'STV_INTERNAL', 2: 'STV_HIDDEN', 3: 'STV_PROTECTED'}
+_VIS = {0: 'STV_DEFAULT', 1: 'STV_INTERNAL', 2: 'STV_HIDDEN', 3: 'STV_PROTECTED', 4: 'STV_EXPORTED', 5: 'STV_SINGLETON', 6: 'STV_ELIMINATE'}
 _SHN = {0: 'SHN_UNDEF', 0xfff1: 'SHN_ABS', 0xfff2: 'SHN_COMMON'}
 
 
 def _entry_truth(e):
     nm, value, size, bind, typ, vis, shndx, loc = e
-    return [nm, value, size, _BIND[bind], _TYPE[typ], _VIS[vis], _SHN.get(shndx, shndx), loc]
+    return [nm, value, size, _BIND[bind], _TYPE[typ], _VIS.get(vis, vis), _SHN.get(shndx, shndx), loc]
 
 
 def _entry_obs(sym):
